@@ -5,5 +5,5 @@ open Updog.Generated
 /-- `getValueIndex` hashes column‖0x00‖value; NOT flips over [0, nextRowID); AND/OR use FastAnd/FastOr; EQUAL checks the schema first
     and treats a missing bitmap as empty -/
 theorem C01_facts : valueIndexShape = true ∧ evalEqualShape = true ∧ evalNotShape = true ∧ evalAndShape = true ∧
-    evalOrShape = true ∧ executeShape = true := by decide
+    evalOrShape = true ∧ executeShape = true ∧ onDemandReadsStore = true ∧ preloadedIsPlainMap = true := by decide
 end Updog.Facts
